@@ -329,12 +329,15 @@ fn run(ctx: &mut Ctx) {
 }
 
 fn run_program_warm() {
-    let mut m: Vec<Option<Vec<u8>>> = vec![None; NSLOTS];
-    let mut b = Builder::new(HeaderTagISA::I386);
-    for s in 0..NSLOTS {
-        b = call(b, &mut m, s, 2);
-    }
-    let _ = b.build();
+    // (a panic of the library in here is not a harness failure: the same calls are judged inside the leaves)
+    let _ = std::panic::catch_unwind(|| {
+        let mut m: Vec<Option<Vec<u8>>> = vec![None; NSLOTS];
+        let mut b = Builder::new(HeaderTagISA::I386);
+        for s in 0..NSLOTS {
+            b = call(b, &mut m, s, 2);
+        }
+        let _ = b.build();
+    });
     let _ = std::panic::catch_unwind(|| panic!("warm"));
 }
 
